@@ -266,7 +266,7 @@ fn witness_supras(sy: &mut Syllable, alphas: &RefCell<HashMap<char, Alpha>>, p: 
         // length-change counter an isize this makes every `len_change += / -= 1` overflow-free.
         /*#apply_supras.std_len_limit C02*/ old(self).segments@.len() + 3 <= isize::MAX,
     ensures
-        /*#apply_supras.length_table C05*/ r matches Ok(lc) ==> (
+        /*#apply_supras.length_table C05,C02*/ r matches Ok(lc) ==> (
             len_target(tv(mods.length[0], alphas), tv(mods.length[1], alphas), run_len(old(self).segments@, pos as int)) matches Some(t)
             && final(self).segments@ =~= resized(old(self).segments@, pos as int, t)
             && lc as int == t - run_len(old(self).segments@, pos as int)),
@@ -463,7 +463,7 @@ fn witness_supras(sy: &mut Syllable, alphas: &RefCell<HashMap<char, Alpha>>, p: 
         /*#replace_segment.in_bounds C02*/ pos < old(self).segments@.len(),
         old(self).segments@.len() + 3 <= isize::MAX,
     ensures
-        /*#replace_segment.one_for_one C14,C05*/ mods.is_none() ==> (r is Ok
+        /*#replace_segment.one_for_one C14,C05,C02*/ mods.is_none() ==> (r is Ok
             && final(self).segments@ =~= old(self).segments@.subrange(0, pos as int).push(*seg)
                 + old(self).segments@.subrange(pos + run_len(old(self).segments@, pos as int), old(self).segments@.len() as int)
             && r->Ok_0 == 1 - run_len(old(self).segments@, pos as int)
@@ -486,7 +486,7 @@ fn witness_supras(sy: &mut Syllable, alphas: &RefCell<HashMap<char, Alpha>>, p: 
     requires old(self).segments@.len() + 4 <= isize::MAX,
         /*#insert_segment.mods_need_in_bounds_pos C02*/ mods.is_some() ==> pos <= old(self).segments@.len(),
     ensures
-        /*#insert_segment.inserts_one C14*/ mods.is_none() ==> (r is Ok && r->Ok_0 == 0
+        /*#insert_segment.inserts_one C14,C02*/ mods.is_none() ==> (r is Ok && r->Ok_0 == 0
             && final(self).segments@ =~= (if pos > old(self).segments@.len() { old(self).segments@.push(*seg) } else { old(self).segments@.insert(pos as int, *seg) })
             && final(self).stress == old(self).stress && final(self).tone == old(self).tone),
 //@ end
